@@ -96,4 +96,62 @@ def git_merge_base(req):
         shutil.rmtree(tmp, ignore_errors=True)
 
 
-HANDLERS = dict(lcas_batch=lcas_batch, repo_api=repo_api, git_merge_base=git_merge_base)
+def walks(req):
+    """Walker over a MemoryRepo: every (include, exclude, order, reverse, max_entries, since, until) of the request;
+    optionally the same history in git (fast-import) with git rev-list"""
+    from dulwich.walk import Walker
+    d = _dag(req["dag"])
+    r, ids = build_repo(d, req["stamps"])
+    idx = {v: i for i, v in enumerate(ids)}
+    out = []
+    for w in req["walks"]:
+        try:
+            kw = {}
+            if w.get("max") is not None:
+                kw["max_entries"] = w["max"]
+            if w.get("since") is not None:
+                kw["since"] = w["since"]
+            if w.get("until") is not None:
+                kw["until"] = w["until"]
+            got = [idx[e.commit.id] for e in Walker(r.object_store, [ids[i] for i in w["inc"]], exclude=[ids[i] for i in w["exc"]] or None,
+                                                     order=w["order"], reverse=w["rev"], **kw)]
+            out.append(got)
+        except Exception as e:  # noqa: BLE001
+            out.append("exc:" + type(e).__name__ + ":" + str(e)[:80])
+    res = {"v": out}
+    if req.get("git"):
+        tmp = tempfile.mkdtemp(prefix="verif-walk-", dir=os.environ.get("VERIF_SCRATCH") or None)
+        try:
+            subprocess.run(["git", "init", "-q", "--bare", tmp], env=GIT_ENV, check=True)
+            stream = []
+            for i, ps in enumerate(d):
+                msg = "c%d\n" % i
+                stream.append("commit refs/heads/n%d\nmark :%d\ncommitter c <c@x> %d +0000\ndata %d\n%s" % (i, i + 1, max(req["stamps"][i], 0), len(msg), msg))
+                if ps:
+                    stream.append("from :%d\n" % (ps[0] + 1))
+                    for p in ps[1:]:
+                        stream.append("merge :%d\n" % (p + 1))
+                stream.append("\n")
+            p = subprocess.run(["git", "fast-import", "--quiet"], cwd=tmp, env=GIT_ENV, input="".join(stream).encode(), capture_output=True)
+            if p.returncode:
+                res["git_err"] = p.stderr.decode()[:200]
+                return res
+            names = subprocess.run(["git", "for-each-ref", "--format=%(objectname) %(refname:short)"], cwd=tmp, env=GIT_ENV, capture_output=True).stdout.decode().split("\n")
+            rev = {}
+            for l in names:
+                if l:
+                    h, nme = l.split()
+                    rev.setdefault(h, int(nme[1:]))
+            res["git_collapsed"] = len(rev) != len(d)
+            gl = []
+            for w in req["walks"]:
+                args = ["git", "rev-list"] + (["--topo-order"] if w["order"] == "topo" else []) + ["n%d" % i for i in w["inc"]] + ["^n%d" % i for i in w["exc"]]
+                o = subprocess.run(args, cwd=tmp, env=GIT_ENV, capture_output=True)
+                gl.append([rev.get(h, -1) for h in o.stdout.decode().split()])
+            res["git"] = gl
+        finally:
+            shutil.rmtree(tmp, ignore_errors=True)
+    return res
+
+
+HANDLERS = dict(lcas_batch=lcas_batch, repo_api=repo_api, git_merge_base=git_merge_base, walks=walks)
